@@ -24,6 +24,46 @@ AREA_TYPES = ('tri', 'quad')
 VOL_TYPES = ('tet', 'tet2', 'hex', 'prism')
 
 
+# ------------------------------------------------ source variant (tie T-lite)
+def detect_metric_variant():
+    """which assignment the 'mix' branch of calculate_element_metrics contains.
+    Fail-closed: returns ('scatter'|'by_id', sha) or raises ValueError."""
+    import ast
+    src = (lib.REPO / 'femio' / 'geometry_processor.py').read_text()
+    tree = ast.parse(src)
+    fn = None
+    for n in ast.walk(tree):
+        if isinstance(n, ast.FunctionDef) and n.name == 'calculate_element_metrics':
+            fn = n
+    if fn is None:
+        raise ValueError('calculate_element_metrics not found')
+    region = ast.get_source_segment(src, fn)
+    found = []
+    for n in ast.walk(fn):
+        if isinstance(n, ast.For) and isinstance(n.iter, ast.Call) and \
+                ast.unparse(n.iter) == 'self.elements.items()':
+            for st in n.body:
+                if isinstance(st, ast.Assign) and len(st.targets) == 1 and \
+                        isinstance(st.targets[0], ast.Subscript) and \
+                        ast.unparse(st.targets[0].value) == 'metrics':
+                    found.append((ast.unparse(st.targets[0].slice), ast.unparse(st.value),
+                                  ast.unparse(n.target)))
+    if len(found) != 1:
+        raise ValueError(f'expected one assignment into metrics[...] in the mix loop, found {found}')
+    sl, val, tgt = found[0]
+    if val != 'partial_metrics' or tgt != '(k, e)':
+        raise ValueError(f'unrecognised mix loop: for {tgt}: metrics[{sl}] = {val}')
+    if sl == 'self.elements.types == k':
+        return 'scatter', lib.sha(region)
+    if sl in ('self.elements.id2index.loc[e.ids].values[:, 0]',
+              'self.elements.id2index.loc[e.ids].values.ravel()'):
+        return 'by_id', lib.sha(region)
+    raise ValueError(f'unrecognised index expression metrics[{sl}]')
+
+
+VARIANT = {'by_id': False}
+
+
 # --------------------------------------------------------------- geometry
 def respace(mesh, rng):
     """monotone integer re-spacing of the lattice lines of each axis (elements
@@ -256,7 +296,7 @@ def q_to_coq(mesh, q, eids):
         mu = metrics_by_id(mesh)
         tbl = lib.coq_list([f'({lib.coq_Z(e)}, {qlit(m)})' for e, m in sorted(mu.items())
                             if m is not None])
-        wm = f'(WImplicit (table_lookup {tbl}))'
+        wm = f"(WImplicit {'true' if VARIANT['by_id'] else 'false'} (table_lookup {tbl}))"
     return f"CE2N {b(q['mode'] == 'effective')} {b(q['order1'])} {wm} {v} {w}"
 
 
@@ -369,10 +409,10 @@ def malformed(rng, mesh):
 
 
 def gen_cases(ctx):
-    n_mesh = 45 if ctx.tier == 'quick' else 400
+    n_mesh = 80 if ctx.tier == 'quick' else 500
     cases = []
-    kinds = ['tri', 'quad', 'mixed2d', 'tet', 'tet2', 'hex', 'mixed3d', 'hex2', 'mixed3d2',
-             'mixed2d', 'mixed3d']
+    kinds = ['tri', 'quad', 'mixed2d', 'tet', 'tet2', 'hex', 'mixed3dv', 'hex2', 'mixed3d2',
+             'mixed2d', 'mixed3d', 'mixed3dv']
     for i in range(n_mesh):
         kind = kinds[i % len(kinds)] if i < 2 * len(kinds) else ctx.rng.choice(kinds)
         mx = 26 if ctx.tier == 'quick' else ctx.rng.choice([26, 26, 40])
@@ -561,7 +601,18 @@ def main(ctx):
     ]
     ctx.assumptions += ['every query on a freshly built FEMData', 'positive elements',
                         'wf ids (distinct node ids, distinct element ids)']
-    proof_ok, log = ctx.build_props('C14/Props.v')
+    try:
+        variant, sha = detect_metric_variant()
+        ctx.sources['geometry_processor.py:calculate_element_metrics'] = sha
+        ctx.notes['metric_mix_variant'] = variant
+        VARIANT['by_id'] = variant == 'by_id'
+    except (ValueError, SyntaxError, OSError) as e:
+        ctx.notes['metric_mix_variant'] = 'unrecognised: ' + str(e)
+        ctx.violation('tie-broken', {'error': str(e)},
+                      "the 'mix' branch of calculate_element_metrics is one of the two modelled "
+                      'assignments', 'unrecognised', 'Model.implicit_weights (variant detection)',
+                      found_input=False, signature={'kind': 'tie-broken', 'what': 'metric-variant'})
+    proof_ok, log = ctx.build_props('C14/Props.v', scan_dirs=[lib.COQ / 'C14', lib.COQ / 'C13'])
     if not proof_ok:
         ctx.notes['build_log_tail'] = log[-1500:]
         lib.coq_make(['C14/Model.vo'])
@@ -615,6 +666,10 @@ def replay(path):
     mesh = {'nodes': c['mesh']['nodes'], 'blocks': c['mesh']['blocks'], 'tags': {'kind': 'replay'}}
     case = {'id': 0, 'mesh': mesh, 'queries': [c['query']]}
     lib.coq_make(['C14/Model.vo'])
+    try:
+        VARIANT['by_id'] = detect_metric_variant()[0] == 'by_id'
+    except (ValueError, SyntaxError, OSError) as e:
+        print('metric variant not recognised:', e)
     results, oracle_fail, corr, _ = evaluate(ctx, [case], 'replay')
     print('implementation:', json.dumps(summarise(results[0][0])))
     print('property oracle:', oracle_fail[0] or 'holds')
